@@ -149,6 +149,13 @@ def run(ctx, rep):
             if (is_all and pol == 1 and cond_true) or (not is_all and pol == -1 and not cond_true):
                 ok = True
                 guard_calls.append(q)
+        # must-pass form: EVERY path to the copy has seen the quantifier succeed (`all(..) || something` does not pass)
+        if ok and guard_calls:
+            q0 = guard_calls[0]
+            is_all0 = q0[1].endswith("all")
+            ev = only_via(PR, clone_from[0], lambda x: x[0] == "call" and x[1] == q0[1] and len(x) > 3 and x[3] == q0[3], is_all0)
+            rep.check("C11.b", "reuse-guarded/every-path", ev, where=where(PR, clone_from[0]), what="every path that copies the parent's content has seen the all-chunks-indexed test succeed" if ev else
+                      "the parent's content can be copied on a path where the all-chunks-indexed test did not succeed")
         rep.check("C11.b", "reuse-guarded", ok, where=where(PR, clone_from[0]), what="the parent's content is reused only if every chunk id is in the index (all(has_data) / !any(!has_data))" if ok else "a file's content is taken from the parent WITHOUT checking that all its chunks are still indexed")
         # the chunks tested are the PARENT node's content - the very list that is copied
         t_cf = PR.term(clone_from[0])
